@@ -1382,8 +1382,12 @@ def run_case(ctx, recipe):
 
 def correspondence(ctx):
     corpus = [("corpus", c[1], []) for c in core.load_corpus(PROP) if c and c[0] == "recipe"]
-    cases = corpus + gen_cases(ctx, "all", ctx.budget(14, 80), ctx.budget(10, 24), ctx.budget(12, 30),
-                               ctx.budget(12, 40), exhaustive_bases=ctx.budget(0, 2), exhaustive_pairs=300,
+
+    def q(quick, thorough):
+        """per-base counts: by tier only (the number of bases carries the harness's budget boost)"""
+        return quick if ctx.quick() else thorough
+    cases = corpus + gen_cases(ctx, "all", ctx.budget(14, 80), ctx.budget(10, 24), q(12, 30),
+                               q(12, 40), exhaustive_bases=ctx.budget(0, 2), exhaustive_pairs=300,
                                n_multiref=ctx.budget(24, 100), n_multi=ctx.budget(16, 60),
                                n_sweep=ctx.budget(3, 12), sweep_size=ctx.budget(24, 40))
     descs, impls = [], []
@@ -1561,15 +1565,18 @@ def oracle(ctx, broken, hints):
             cases.append(("hint", h[1], h[2] if len(h) > 2 else []))
     cases += [("corpus", c[1], c[2] if len(c) > 2 else []) for c in core.load_corpus(PROP) if c and c[0] == "recipe"]
     cases += _fixed_cases(ctx)
+
+    def q(quick, thorough):
+        return quick if ctx.quick() else thorough
     if broken:
         # (quick budgets are tripled by the harness when an anchored source differs from the baseline)
-        cases += gen_cases(ctx, "property", ctx.budget(10, 100), ctx.budget(8, 120), ctx.budget(20, 30),
-                           ctx.budget(20, 30), exhaustive_bases=ctx.budget(0, 3),
+        cases += gen_cases(ctx, "property", ctx.budget(10, 100), ctx.budget(8, 120), q(20, 30),
+                           q(20, 30), exhaustive_bases=ctx.budget(0, 3),
                            n_multiref=ctx.budget(40, 400), n_multi=ctx.budget(20, 200),
                            n_sweep=ctx.budget(5, 40), sweep_size=ctx.budget(30, 40))
     else:
-        cases += gen_cases(ctx, "property", ctx.budget(6, 30), ctx.budget(6, 16), ctx.budget(8, 25),
-                           ctx.budget(8, 30), exhaustive_bases=ctx.budget(0, 1), exhaustive_pairs=300,
+        cases += gen_cases(ctx, "property", ctx.budget(6, 30), ctx.budget(6, 16), q(8, 25),
+                           q(8, 30), exhaustive_bases=ctx.budget(0, 1), exhaustive_pairs=300,
                            n_multiref=ctx.budget(24, 100), n_multi=ctx.budget(12, 60),
                            n_sweep=ctx.budget(3, 12), sweep_size=ctx.budget(24, 40), each_kind=not ctx.quick())
     failures = []
